@@ -434,6 +434,9 @@ func (l *Ledger) handleFork(oldTip []byte, newTipPre []byte, nextHash []byte, ba
 		if saveErr != nil {
 			return nil, saveErr
 		}
+		// InTrunk/NextHash of both blocks changed, drop the stale full-block cache entries
+		l.blockCache.Del(string(pBlock.Blockid))
+		l.blockCache.Del(string(qBlock.Blockid))
 	}
 	splitBlock, qErr := l.fetchBlock(q)
 	if qErr != nil {
@@ -445,6 +448,7 @@ func (l *Ledger) handleFork(oldTip []byte, newTipPre []byte, nextHash []byte, ba
 	if saveErr != nil {
 		return nil, saveErr
 	}
+	l.blockCache.Del(string(splitBlock.Blockid))
 	return splitBlock, nil
 }
 
